@@ -106,7 +106,7 @@ class Inside(Contract):
     cover_raise = True
 
     def configs(self, tier):
-        out = [{"rank": 1, "extra": 0}, {"rank": 2, "extra": 0}, {"rank": 1, "extra": 1}, {"rank": 1, "extra": 0, "int": True}]
+        out = [{"rank": 1, "extra": 0}, {"rank": 2, "extra": 0}, {"rank": 1, "extra": 1}, {"rank": 1, "extra": 0, "int": True}, {"rank": 1, "extra": 0, "nan": True}, {"rank": 2, "extra": 1, "nan": True}]
         if tier == "thorough":
             out += [{"rank": 3, "extra": 0}]
         return out
@@ -114,7 +114,8 @@ class Inside(Contract):
     def setup(self, B, cfg):
         dims = tuple(B.dim("n%d" % k, 0) for k in range(cfg["rank"]))
         kind = "i" if cfg.get("int") else "f"  # integer-dtype coordinates against real-valued (fractional) bounds
-        coords = [B.array("easting", dims, kind=kind), B.array("northing", dims, kind=kind)] + [B.array("extra%d" % k, dims) for k in range(cfg["extra"])]
+        nan = bool(cfg.get("nan"))  # missing coordinates (NaN) are in no box: every comparison with NaN is False
+        coords = [B.array("easting", dims, kind=kind, nan=nan), B.array("northing", dims, kind=kind, nan=nan)] + [B.array("extra%d" % k, dims, nan=nan) for k in range(cfg["extra"])]
         return (tuple(coords), _region_of(B)), {}
 
     def raises(self, a):
@@ -133,6 +134,13 @@ class Inside(Contract):
             coords[1].flat[-1] = region[rng.choice([2, 3])]
             yield (coords, region), {}
         yield ((np.zeros(3), np.zeros(3)), [1.0, 0.0, 0.0, 1.0]), {}
+        for _ in range(4):  # missing (NaN) and infinite coordinates
+            coords = [np.array(c) for c in _rand_coords(rng, nrng, rng.choice([1, 2]), 0, scale=6.0)]
+            for c in coords:
+                if c.size > 1:
+                    c.flat[rng.randrange(c.size)] = rng.choice([np.nan, np.nan, np.inf, -np.inf])
+            yield (tuple(coords), rng.choice([[-5.0, 5.0, -2.0, 7.0], [0.0, 0.0, 1.0, 1.0]])), {}
+        yield ((np.array([np.nan, 0.0, 1.0]), np.array([0.5, np.nan, 0.5])), (-1.0, 2.0, 0.0, 1.0)), {}
         for dt in ("int64", "int32", "float32"):  # other coordinate dtypes, fractional bounds
             ce, cn = np.meshgrid(np.arange(-2, 7), np.arange(-1, 6))
             yield ((ce.astype(dt), cn.astype(dt)), (0.5, 4.75, 0.25, 3.5)), {}
@@ -147,7 +155,7 @@ class Inside(Contract):
             return out
         out["same_shape_as_input"] = and_(*[x == y for x, y in zip(r.shape, e.shape)]) if r.ndim else True
         out["closed_box_predicate_elementwise"] = Forall(
-            e.shape, lambda *i: iff(r.at(*i), and_(W <= e.at(*i), e.at(*i) <= E, S_ <= n.at(*i), n.at(*i) <= N))
+            e.shape, lambda *i: iff(r.at(*i), and_(not_(e.nan_at(*i)), not_(n.nan_at(*i)), W <= e.at(*i), e.at(*i) <= E, S_ <= n.at(*i), n.at(*i) <= N))
         )
         return out
 
